@@ -135,6 +135,23 @@ pub fn c10_alphabet() -> impl Fn(&Model) -> Vec<Op> + Sync {
                 ops.push(Op::LocalToImport(f.handle));
             }
         }
+        // one injected call of an import into $l0 (through the iterator and in function-entry mode through
+        // the modifier) - a use of the import that lives in instrumentation, not in the parsed code - and
+        // one report / encoding before the final one
+        let base_sites: usize = 4;
+        if let Some(owner) = m.funcs.iter().find(|f| f.live && f.import.is_none() && f.marker == Some(0)) {
+            if owner.sites.len() <= base_sites {
+                for f in m.funcs.iter().filter(|f| f.live && f.import.is_some()) {
+                    for api in [0u8, 5u8] {
+                        ops.push(Op::InjectFn { owner: owner.handle, kind: 0, target: f.handle, api });
+                    }
+                }
+            }
+        }
+        if m.encodes == 0 {
+            ops.push(Op::EncodeNow);
+            ops.push(Op::PullNow);
+        }
         ops
     }
 }
@@ -144,7 +161,7 @@ pub fn check_c10(tier: Tier) -> i32 {
     let depth = tier.pick(3, 4);
     let bases = c10_bases();
     run.rule = format!(
-        "16 base modules = every placement of non-function imports (global, memory, table, tag) in the 4 gaps around 3 function imports, each import referenced from calls, exports, an element segment and start; all histories of length <= {} over: replace function import i (obtained the documented way, imports.find(module,name), then FunctionBuilder::replace_import_in_module) for every i, in every order and subset, interleaved with <= 1 other edit (add import / add local function / convert a local function to an import - added and converted imports are replaced too). Oracle: the import is gone, every former site of it designates the function carrying the new body's marker, all other entities and sites are unchanged, the output validates.",
+        "16 base modules = every placement of non-function imports (global, memory, table, tag) in the 4 gaps around 3 function imports, each import referenced from calls, exports, an element segment and start; all histories of length <= {} over: replace function import i (obtained the documented way, imports.find(module,name), then FunctionBuilder::replace_import_in_module) for every i, in every order and subset, interleaved with <= 1 other edit (add import / add local function / convert a local function to an import - added and converted imports are replaced too), <= 1 call of an import injected into $l0 (iterator before-code, or function-entry code through the modifier) and <= 1 encode() / pull_side_effects() before the final encoding. Oracle: the import is gone, every former site of it designates the function carrying the new body's marker, all other entities and sites are unchanged, the output validates.",
         depth
     );
     let judge = |c: &Clause, _h: &[Op]| matches!(c.kind, ClauseKind::Func | ClauseKind::Generic | ClauseKind::DupId);
